@@ -93,6 +93,9 @@ pub struct ReplayFile {
 }
 
 pub struct SubResult {
+  /// more than half of the cases ended in a runtime abort (deadlock / budget) that this
+  /// sub-check does not judge: the run was cut short, its silence means nothing
+  pub inconclusive: bool,
   pub name: String,
   pub evaluations: u64,
   pub nontrivial_distinct: u64,
@@ -131,6 +134,8 @@ where
 {
   let t0 = Instant::now();
   let evaluations = AtomicU64::new(0);
+  let aborted_cases = AtomicU64::new(0);
+  let inconclusive = AtomicBool::new(false);
   let stop = AtomicBool::new(false);
   let distinct: Mutex<HashSet<u64>> = Mutex::new(HashSet::new());
   let classes: Mutex<BTreeMap<String, u64>> = Mutex::new(BTreeMap::new());
@@ -141,6 +146,7 @@ where
     for shard in 0..shards {
       let (evaluations, stop, distinct, classes, excluded, samples, failure) =
         (&evaluations, &stop, &distinct, &classes, &excluded, &samples, &failure);
+      let (aborted_cases, inconclusive) = (&aborted_cases, &inconclusive);
       let strat = &strat;
       let check = &check;
       let name = name.to_string();
@@ -165,7 +171,14 @@ where
           }
           let rep = check(&c);
           if counting.load(Ordering::SeqCst) {
-            evaluations.fetch_add(1, Ordering::SeqCst);
+            let n = evaluations.fetch_add(1, Ordering::SeqCst) + 1;
+            if rep.fail.is_none() && rep.classes.iter().any(|c| c.starts_with("aborted:")) {
+              let a = aborted_cases.fetch_add(1, Ordering::SeqCst) + 1;
+              if n >= 2000 && a * 2 > n {
+                inconclusive.store(true, Ordering::SeqCst);
+                stop.store(true, Ordering::SeqCst);
+              }
+            }
             if let Some(x) = &rep.excluded {
               *excluded.lock().unwrap().entry(x.clone()).or_insert(0) += 1;
             }
@@ -217,6 +230,7 @@ where
   });
   let nd = distinct.lock().unwrap().len() as u64;
   SubResult {
+    inconclusive: inconclusive.load(Ordering::SeqCst),
     name: name.to_string(),
     evaluations: evaluations.load(Ordering::SeqCst),
     nontrivial_distinct: nd,
@@ -318,6 +332,7 @@ pub fn finish(root: &str, out: CheckOutput, wall_s: f64) -> i32 {
       "excluded_by_known_finding": s.excluded,
       "wall_s": s.wall_s,
       "failed": s.failure.is_some(),
+      "inconclusive": s.inconclusive,
     }));
     if let Some((msg, case)) = &s.failure {
       violations += 1;
@@ -371,6 +386,14 @@ pub fn finish(root: &str, out: CheckOutput, wall_s: f64) -> i32 {
   );
   if violations > 0 {
     1
+  } else if out.subs.iter().any(|s| s.inconclusive) {
+    for s in out.subs.iter().filter(|s| s.inconclusive) {
+      eprintln!(
+        "[{}:{}] inconclusive: more than half of the cases ended in a deadlock / budget abort that this sub-check does not judge (see C07)",
+        out.property, s.name
+      );
+    }
+    2
   } else {
     0
   }
